@@ -128,7 +128,30 @@ def sweep_keys(r) -> List[str]:
     return []
 
 
-def _val(v, single, f64):
+# SI prefixes of the units the generator draws (one dimension per group); the wire stores ONE unit per sweep
+UNIT_GROUPS = [["ns", "us", "ms"], ["kHz", "MHz", "GHz"], ["mV", "V"]]
+UNIT_FACTOR = {"ns": 1e-9, "us": 1e-6, "ms": 1e-3, "s": 1.0, "Hz": 1.0, "kHz": 1e3, "MHz": 1e6, "GHz": 1e9, "uV": 1e-6, "mV": 1e-3, "V": 1.0}
+
+
+def to_unit(x, u_from, u_to):
+    """The number that expresses x [u_from] in u_to (exact powers of ten: multiply or divide by an integer power)."""
+    if u_from == u_to:
+        return float(x)
+    a, b = UNIT_FACTOR[u_from], UNIT_FACTOR[u_to]
+    k = round(math.log10(a / b))
+    return float(x) * (10.0 ** k) if k >= 0 else float(x) / (10.0 ** (-k))
+
+
+def lin_units(unit):
+    """lin recipes carry unit = None | "ns" | ["ns", "us"] (start unit, stop unit)."""
+    if not unit:
+        return None, None
+    if isinstance(unit, str):
+        return unit, unit
+    return unit[0], unit[1]
+
+
+def _val(v, single, f64, base_unit=None):
     """Value of one sweep point after the wire.  v = ["f",x] | ["i",n] | ["str",s] | ["none"] | ["u",x,unit]."""
     t = v[0]
     if t == "f":
@@ -141,8 +164,12 @@ def _val(v, single, f64):
     if t == "none":
         return ("none", None)
     if t == "u":
-        # units: a single point is a with_unit ConstValue (double); several points are floats + a unit
-        return ("unit", (float(v[1]) if (single or f64) else f32(v[1])), v[2])
+        # units: a single point is a with_unit ConstValue (double, own unit); several points are floats in the unit of the
+        # FIRST point (the proto stores one unit), so points given in another unit of the dimension are converted
+        if single:
+            return ("unit", float(v[1]), v[2])
+        x = to_unit(v[1], v[2], base_unit or v[2])
+        return ("unit", x if f64 else f32(x), base_unit or v[2])
     raise KeyError(t)
 
 
@@ -153,6 +180,10 @@ def sweep_enumerate(r, f64=False) -> List[Dict[str, Any]]:
         return [{}]
     if k == "lin":
         _, key, start, stop, n, unit = r[:6]
+        us, ue = lin_units(unit)
+        unit = us
+        if us:
+            stop = to_unit(stop, ue, us)  # the proto keeps the start's unit; the stop is converted into it
         s = float(start) if f64 else f32(start)
         e = float(stop) if f64 else f32(stop)
         out = []
@@ -167,7 +198,8 @@ def sweep_enumerate(r, f64=False) -> List[Dict[str, Any]]:
     if k == "pts":
         _, key, vals = r[:3]
         single = len(vals) == 1
-        return [{key: _val(v, single, f64)} for v in vals]
+        base = vals[0][2] if vals and vals[0][0] == "u" else None
+        return [{key: _val(v, single, f64, base)} for v in vals]
     if k == "list":
         rows = r[1]
         single = len(rows) == 1
